@@ -324,7 +324,7 @@ ATOMS = [
     "<", ">", "&", "&#0;", "&#x110000;", "\t", "a" * 300, "\u00e9", "\u2028", "../x", "/", ".", "..", "~", "!", "|\u00b2", "null", "true", "2020-01-01", "!!binary aGk=", "*x", "&x y",
     "- a", "? a", "[1, 2]", "{a: b}", "a: b", "a # b", "x\ny", "\u202e", "\ud7ff", "\x7f", "$", "\\n", "os.nope", "os.", "a.b.c",
     "2023-02-30", "!!int \"x\"", "!!bool \"x\"", "!!timestamp \"x\"", "{2020-01-01: x}", "[2020-01-01]", "C:\\qux", "org\\1", "%5Cdocs", "a\\x-1b", "\\u-001", "\\U-0000001", "\\x+1", "\\x1_",
-    "3", "[a]", "{http: null}", "false", "1.5",
+    "3", "[a]", "{http: null}", "false", "1.5", "&x [*x]", "&x {k: *x}",
 ]
 
 
